@@ -46,6 +46,25 @@ class World:
         return f
 
 
+def touch_first(name=None):
+    """Load one path configuration before anything else touches one (a configuration module may derive its tables from
+    another's, so what it is can depend on which was loaded first). Without a name: the one the driver asked for."""
+    import os
+    name = name or os.environ.get("VERIF_FIRST_CONFIG")
+    if name:
+        from spil.sid.pathops.pathconfig import get_path_config
+        get_path_config(name)
+    return name
+
+
+def tag_first(res, first):
+    """Confirmation of a violation happens in a process that loads the same configuration first."""
+    for lst in res["violations"].values():
+        for v in lst:
+            v["env"] = {"env": {"VERIF_FIRST_CONFIG": first or ""}}
+    return res
+
+
 def universes(ref: Conf, tier="quick"):
     """name -> list of leaf strings."""
     out = {}
